@@ -4,12 +4,23 @@
 use std::collections::{HashMap, HashSet};
 
 // ---- hash-order rule (C09)
-pub fn bad_hash_loop_push(m: &HashMap<String, i32>) -> Vec<String> {
+pub fn bad_hash_loop_push(m: &HashMap<String, i32>) -> String {
     let mut out = Vec::new();
     for (k, _v) in m {
         out.push(k.clone());
     }
-    out
+    // used in hash order: the loop made `out` a hash-ordered sequence, exactly as `collect()` would have
+    out.join(",")
+}
+
+// the same loop followed by a total sort is fine (must NOT be reported)
+pub fn ok_hash_loop_push_sorted(m: &HashMap<String, i32>) -> String {
+    let mut out = Vec::new();
+    for (k, _v) in m {
+        out.push(k.clone());
+    }
+    out.sort();
+    out.join(",")
 }
 
 pub fn bad_hash_collect_join(s: HashSet<String>) -> String {
